@@ -11,6 +11,7 @@ Python equivalents of logical Excel functions.
 """
 import functools
 import numpy as np
+import schedula as sh
 from . import (
     wrap_ufunc, Error, flatten, get_error, wrap_func, XlError, raise_errors
 )
@@ -18,10 +19,24 @@ from . import (
 FUNCTIONS = {}
 
 
+def _text2logical(value):
+    # The texts TRUE and FALSE stand for the logical values, other texts fail.
+    if isinstance(value, str) and value is not sh.EMPTY:
+        value = {'TRUE': True, 'FALSE': False}.get(value.upper())
+        if value is None:
+            raise ValueError
+    return value
+
+
+def _typed2logical(value):
+    try:
+        return _text2logical(value)
+    except ValueError:
+        return bool(float(value))
+
+
 def xif(condition, x=True, y=False):
-    if isinstance(condition, str):
-        return Error.errors['#VALUE!']
-    return x if condition else y
+    return x if _text2logical(condition) else y
 
 
 def solve_cycle(*args):
@@ -44,9 +59,7 @@ def xifs(*cond_vals):
         err = get_error(b)
         if err:
             return err
-        if isinstance(b, str):
-            raise ValueError
-        if b:
+        if _text2logical(b):
             return v
     return Error.errors['#N/A']
 
@@ -93,14 +106,12 @@ FUNCTIONS['_XLFN.IFNA'] = FUNCTIONS['IFNA'] = {
 
 
 def xswitch(val, *args):
-    if isinstance(val, bool):
-        condition = lambda x: val is x
-    else:
-        condition = lambda x: val == x
+    from .operators import logic_input_parser
     for k, v in zip(args[::2], args[1::2]):
         if isinstance(k, XlError):
             return k
-        elif condition(k):
+        x, y = logic_input_parser(val, k)  # Compares as the operator `=`.
+        if x == y:
             return v
     else:
         return args[-1] if len(args) % 2 else Error.errors['#N/A']
@@ -118,6 +129,9 @@ def xand(logical, *logicals, func=np.logical_and.reduce):
     args = (logical,) + logicals
     raise_errors(args)
     check = lambda x: not isinstance(x, str)
+    # Directly typed texts have to be logical values or numbers, texts in
+    # ranges are skipped.
+    args = tuple(_typed2logical(v) for v in args)
     inp = tuple(flatten(args, check=check, drop_empty=True))
     return func(inp) if inp else Error.errors['#VALUE!']
 
@@ -131,7 +145,7 @@ FUNCTIONS['_XLFN.XOR'] = FUNCTIONS['XOR'] = {'function': wrap_func(
 )}
 
 FUNCTIONS['NOT'] = {'function': wrap_ufunc(
-    np.logical_not, input_parser=lambda *a: a,
+    lambda x: not _text2logical(x), input_parser=lambda *a: a,
 )}
 
 
